@@ -8,12 +8,25 @@ use routee_compass_core::model::unit::*;
 use serde_json::{json, Value};
 use std::time::Duration;
 
-pub const BOLT: &str = "/repo/rust/routee-compass-powertrain/src/routee/test/2017_CHEVROLET_Bolt.bin";
+pub const BOLT: &str =
+    "/repo/rust/routee-compass-powertrain/src/routee/test/2017_CHEVROLET_Bolt.bin";
 
 /// the tie-free network all configurations share: a diamond with a tail, 5 vertices
 ///   0 -> 1 -> 3 -> 4,  0 -> 2 -> 3,  2 -> 1,  4 isolated sink; vertex 5 unreachable
 pub fn base_net() -> Net {
-    Net { n: 6, edges: vec![(0, 1, 1000.0), (1, 3, 2000.0), (0, 2, 4000.0), (2, 3, 8000.0), (3, 4, 16000.0), (2, 1, 32000.0), (5, 0, 64000.0)], xy: None }
+    Net {
+        n: 6,
+        edges: vec![
+            (0, 1, 1000.0),
+            (1, 3, 2000.0),
+            (0, 2, 4000.0),
+            (2, 3, 8000.0),
+            (3, 4, 16000.0),
+            (2, 1, 32000.0),
+            (5, 0, 64000.0),
+        ],
+        xy: None,
+    }
 }
 
 pub struct AppDef {
@@ -46,47 +59,117 @@ pub fn apps() -> Vec<AppDef> {
         name: "plain_vertex",
         spec: AppSpec::simple(net.clone()),
         bases: vec![vq.clone(), json!({"origin_vertex": 0})],
-        fields: vec!["origin_vertex", "destination_vertex", "weights", "weights.distance", "vehicle_rates", "vehicle_rates.distance", "vehicle_rates.distance.type", "cost_aggregation", "weight_factor"],
+        fields: vec![
+            "origin_vertex",
+            "destination_vertex",
+            "weights",
+            "weights.distance",
+            "vehicle_rates",
+            "vehicle_rates.distance",
+            "vehicle_rates.distance.type",
+            "cost_aggregation",
+            "weight_factor",
+        ],
     });
     // the same configuration with the route and the tree rendered in the other output formats (geometry is built from the route:
     // an empty route, a missing tree or an error must not reach the renderers unguarded)
-    for (name, route, tree) in [("plain_vertex_wkt", "wkt", "wkt"), ("plain_vertex_wkb", "wkb", "wkb"), ("plain_vertex_geo_json", "geo_json", "geo_json"), ("plain_vertex_json", "json", "json")] {
+    for (name, route, tree) in [
+        ("plain_vertex_wkt", "wkt", "wkt"),
+        ("plain_vertex_wkb", "wkb", "wkb"),
+        ("plain_vertex_geo_json", "geo_json", "geo_json"),
+        ("plain_vertex_json", "json", "json"),
+    ] {
         let mut s = AppSpec::simple(net.clone());
-        s.output_plugins = vec![json!({"type": "summary"}), json!({"type": "traversal", "route": route, "tree": tree, "geometry_input_file": "$DIR/geometries.txt"})];
-        out.push(AppDef { name, spec: s, bases: vec![vq.clone(), json!({"origin_vertex": 0})], fields: vec!["origin_vertex", "destination_vertex"] });
+        s.output_plugins = vec![
+            json!({"type": "summary"}),
+            json!({"type": "traversal", "route": route, "tree": tree, "geometry_input_file": "$DIR/geometries.txt"}),
+        ];
+        out.push(AppDef {
+            name,
+            spec: s,
+            bases: vec![vq.clone(), json!({"origin_vertex": 0})],
+            fields: vec!["origin_vertex", "destination_vertex"],
+        });
     }
     // the uuid plugin ahead of the route renderer (it looks the origin and destination ids up in its own table, whatever the
     // search made of them); every base query has a destination, the plugin wants one
     for (name, plugins) in [
-        ("plain_vertex_uuid_first", vec![json!({"type": "summary"}), json!({"type": "uuid", "uuid_input_file": "$DIR/uuids.txt"}), json!({"type": "traversal", "route": "edge_id", "geometry_input_file": "$DIR/geometries.txt"})]),
-        ("plain_vertex_uuid_tree_only", vec![json!({"type": "traversal", "tree": "edge_id", "geometry_input_file": "$DIR/geometries.txt"}), json!({"type": "uuid", "uuid_input_file": "$DIR/uuids.txt"})]),
+        (
+            "plain_vertex_uuid_first",
+            vec![
+                json!({"type": "summary"}),
+                json!({"type": "uuid", "uuid_input_file": "$DIR/uuids.txt"}),
+                json!({"type": "traversal", "route": "edge_id", "geometry_input_file": "$DIR/geometries.txt"}),
+            ],
+        ),
+        (
+            "plain_vertex_uuid_tree_only",
+            vec![
+                json!({"type": "traversal", "tree": "edge_id", "geometry_input_file": "$DIR/geometries.txt"}),
+                json!({"type": "uuid", "uuid_input_file": "$DIR/uuids.txt"}),
+            ],
+        ),
     ] {
         let mut s = AppSpec::simple(net.clone());
         s.uuids = Some((0..net.n).map(|v| format!("uuid-{}", v)).collect());
         s.output_plugins = plugins;
-        out.push(AppDef { name, spec: s, bases: vec![vq.clone()], fields: vec!["origin_vertex", "destination_vertex"] });
+        out.push(AppDef {
+            name,
+            spec: s,
+            bases: vec![vq.clone()],
+            fields: vec!["origin_vertex", "destination_vertex"],
+        });
     }
     // queries by edge with the route and the tree rendered (a query whose origin and destination are the same edge is answered
     // without a search: no route, no tree)
     for (name, plugins) in [
-        ("plain_edge", vec![json!({"type": "summary"}), json!({"type": "traversal", "route": "edge_id", "tree": "edge_id", "geometry_input_file": "$DIR/geometries.txt"})]),
-        ("plain_edge_tree_only", vec![json!({"type": "traversal", "tree": "json", "geometry_input_file": "$DIR/geometries.txt"})]),
+        (
+            "plain_edge",
+            vec![
+                json!({"type": "summary"}),
+                json!({"type": "traversal", "route": "edge_id", "tree": "edge_id", "geometry_input_file": "$DIR/geometries.txt"}),
+            ],
+        ),
+        (
+            "plain_edge_tree_only",
+            vec![
+                json!({"type": "traversal", "tree": "json", "geometry_input_file": "$DIR/geometries.txt"}),
+            ],
+        ),
     ] {
         let mut s = AppSpec::simple(net.clone());
         s.orientation = "edge".into();
         s.output_plugins = plugins;
-        out.push(AppDef { name, spec: s, bases: vec![json!({"origin_edge": 0, "destination_edge": 4}), json!({"origin_edge": 6})], fields: vec!["origin_edge", "destination_edge"] });
+        out.push(AppDef {
+            name,
+            spec: s,
+            bases: vec![
+                json!({"origin_edge": 0, "destination_edge": 4}),
+                json!({"origin_edge": 6}),
+            ],
+            fields: vec!["origin_edge", "destination_edge"],
+        });
     }
     // a combined limit whose runtime member checks on every iteration (frequency 0) next to an iteration limit that a longer
     // search hits: the terminated query is answered with an error response like any other
     {
         let mut s = AppSpec::simple(net.clone());
         s.termination = json!({"type": "combined", "models": [{"type": "query_runtime", "limit": "00:10:00", "frequency": 0}, {"type": "iterations", "limit": 3}]});
-        out.push(AppDef { name: "limits_with_zero_frequency", spec: s, bases: vec![json!({"origin_vertex": 0, "destination_vertex": 1})], fields: vec!["origin_vertex", "destination_vertex"] });
+        out.push(AppDef {
+            name: "limits_with_zero_frequency",
+            spec: s,
+            bases: vec![json!({"origin_vertex": 0, "destination_vertex": 1})],
+            fields: vec!["origin_vertex", "destination_vertex"],
+        });
     }
     // speed table model: state features can be overridden from the query
     let mut s = AppSpec::simple(net.clone());
-    s.speed = Some((speeds.clone(), SpeedUnit::KilometersPerHour, Some(DistanceUnit::Meters), Some(TimeUnit::Seconds)));
+    s.speed = Some((
+        speeds.clone(),
+        SpeedUnit::KilometersPerHour,
+        Some(DistanceUnit::Meters),
+        Some(TimeUnit::Seconds),
+    ));
     s.cost = json!({"weights": {"distance": 0.0, "time": 1.0}, "vehicle_rates": {"distance": {"type": "raw"}, "time": {"type": "raw"}}, "cost_aggregation": "sum", "network_rates": {}});
     out.push(AppDef {
         name: "speed_vertex",
@@ -109,11 +192,15 @@ pub fn apps() -> Vec<AppDef> {
     });
     // A2 vertex rtree with tolerance
     let mut s = AppSpec::simple(net.clone());
-    s.input_plugins = vec![json!({"type": "vertex_rtree", "vertices_input_file": "$DIR/vertices.csv", "distance_tolerance": 500.0, "distance_unit": "meters"})];
+    s.input_plugins = vec![
+        json!({"type": "vertex_rtree", "vertices_input_file": "$DIR/vertices.csv", "distance_tolerance": 500.0, "distance_unit": "meters"}),
+    ];
     out.push(AppDef {
         name: "vertex_rtree",
         spec: s,
-        bases: vec![json!({"origin_x": 0.0, "origin_y": 0.0, "destination_x": 0.01, "destination_y": 0.01})],
+        bases: vec![
+            json!({"origin_x": 0.0, "origin_y": 0.0, "destination_x": 0.01, "destination_y": 0.01}),
+        ],
         fields: vec!["origin_x", "origin_y", "destination_x", "destination_y"],
     });
     // A3 edge rtree, edge orientation, road class filter and vehicle restrictions in the matcher
@@ -121,7 +208,9 @@ pub fn apps() -> Vec<AppDef> {
     s.orientation = "edge".into();
     s.road_classes = Some((0..net.m()).map(|e| (e % 2) as u8).collect());
     s.vehicle_restrictions = Some(vec![(1, "maximum_height".into(), 4.0, "meters".into())]);
-    s.input_plugins = vec![json!({"type": "edge_rtree", "geometry_input_file": "$DIR/geometries.txt", "road_class_input_file": "$DIR/road_classes.txt", "vehicle_restriction_input_file": "$DIR/vehicle_restrictions.csv", "distance_tolerance": 5.0, "distance_unit": "kilometers"})];
+    s.input_plugins = vec![
+        json!({"type": "edge_rtree", "geometry_input_file": "$DIR/geometries.txt", "road_class_input_file": "$DIR/road_classes.txt", "vehicle_restriction_input_file": "$DIR/vehicle_restrictions.csv", "distance_tolerance": 5.0, "distance_unit": "kilometers"}),
+    ];
     let vp = json!({"height": [13.0, "feet"], "width": [2.5, "meters"], "total_length": [60.0, "feet"], "trailer_length": [15.0, "meters"], "total_weight": [9000.0, "kg"], "number_of_axles": 4});
     out.push(AppDef {
         name: "edge_rtree",
@@ -131,7 +220,8 @@ pub fn apps() -> Vec<AppDef> {
     });
     // A4 / A5 load balancer
     let mut s = AppSpec::simple(net.clone());
-    s.input_plugins = vec![json!({"type": "load_balancer", "weight_heuristic": {"type": "haversine"}})];
+    s.input_plugins =
+        vec![json!({"type": "load_balancer", "weight_heuristic": {"type": "haversine"}})];
     out.push(AppDef {
         name: "load_balancer_haversine",
         spec: s,
@@ -139,7 +229,9 @@ pub fn apps() -> Vec<AppDef> {
         fields: vec!["origin_x", "origin_y", "destination_x", "destination_y"],
     });
     let mut s = AppSpec::simple(net.clone());
-    s.input_plugins = vec![json!({"type": "load_balancer", "weight_heuristic": {"type": "custom", "custom_weight_type": {"type": "numeric", "column_name": "w"}}})];
+    s.input_plugins = vec![
+        json!({"type": "load_balancer", "weight_heuristic": {"type": "custom", "custom_weight_type": {"type": "numeric", "column_name": "w"}}}),
+    ];
     out.push(AppDef {
         name: "load_balancer_custom",
         spec: s,
@@ -150,19 +242,40 @@ pub fn apps() -> Vec<AppDef> {
     out.push(AppDef {
         name: "weight_estimate_no_plugin",
         spec: AppSpec::simple(net.clone()),
-        bases: vec![json!({"origin_vertex": 0, "destination_vertex": 4, "query_weight_estimate": 3.0})],
+        bases: vec![
+            json!({"origin_vertex": 0, "destination_vertex": 4, "query_weight_estimate": 3.0}),
+        ],
         fields: vec!["query_weight_estimate"],
     });
     // A6 / A7 inject
     let mut s = AppSpec::simple(net.clone());
-    s.input_plugins = vec![json!({"type": "inject", "key": "weight_factor", "value": "1.0", "format": "json", "overwrite": true})];
-    out.push(AppDef { name: "inject_overwrite", spec: s, bases: vec![json!({"origin_vertex": 0, "destination_vertex": 4})], fields: vec!["origin_vertex", "weight_factor"] });
+    s.input_plugins = vec![
+        json!({"type": "inject", "key": "weight_factor", "value": "1.0", "format": "json", "overwrite": true}),
+    ];
+    out.push(AppDef {
+        name: "inject_overwrite",
+        spec: s,
+        bases: vec![json!({"origin_vertex": 0, "destination_vertex": 4})],
+        fields: vec!["origin_vertex", "weight_factor"],
+    });
     let mut s = AppSpec::simple(net.clone());
-    s.input_plugins = vec![json!({"type": "inject", "key": "weight_factor", "value": "1.0", "format": "json", "overwrite": false})];
-    out.push(AppDef { name: "inject_no_overwrite", spec: s, bases: vec![json!({"origin_vertex": 0, "destination_vertex": 4})], fields: vec!["origin_vertex", "weight_factor"] });
+    s.input_plugins = vec![
+        json!({"type": "inject", "key": "weight_factor", "value": "1.0", "format": "json", "overwrite": false}),
+    ];
+    out.push(AppDef {
+        name: "inject_no_overwrite",
+        spec: s,
+        bases: vec![json!({"origin_vertex": 0, "destination_vertex": 4})],
+        fields: vec!["origin_vertex", "weight_factor"],
+    });
     // A8 energy model with one vehicle
     let mut s = AppSpec::simple(net.clone());
-    s.speed = Some((speeds.clone(), SpeedUnit::KilometersPerHour, Some(DistanceUnit::Miles), Some(TimeUnit::Minutes)));
+    s.speed = Some((
+        speeds.clone(),
+        SpeedUnit::KilometersPerHour,
+        Some(DistanceUnit::Miles),
+        Some(TimeUnit::Minutes),
+    ));
     s.traversal_override = Some(json!({
         "type": "energy_model",
         "time_model": {"type": "speed_table", "speed_table_input_file": "$DIR/speeds.txt", "speed_unit": "kilometers_per_hour", "distance_unit": "miles", "time_unit": "minutes"},
@@ -181,10 +294,20 @@ pub fn apps() -> Vec<AppDef> {
     // A9 / A10 k-shortest paths
     let mut s = AppSpec::simple(net.clone());
     s.algorithm = json!({"type": "ksp_single_via", "k": 2, "underlying": {"type": "a*"}, "similarity": {"type": "edge_id_cosine_similarity", "threshold": 0.99}});
-    out.push(AppDef { name: "ksp_single_via", spec: s, bases: vec![json!({"origin_vertex": 0, "destination_vertex": 4, "k": 2})], fields: vec!["k", "origin_vertex", "destination_vertex"] });
+    out.push(AppDef {
+        name: "ksp_single_via",
+        spec: s,
+        bases: vec![json!({"origin_vertex": 0, "destination_vertex": 4, "k": 2})],
+        fields: vec!["k", "origin_vertex", "destination_vertex"],
+    });
     let mut s = AppSpec::simple(net.clone());
     s.algorithm = json!({"type": "yens", "k": 1, "underlying": {"type": "dijkstra"}, "similarity": {"type": "edge_id_cosine_similarity", "threshold": 0.99}});
-    out.push(AppDef { name: "yens_k1", spec: s, bases: vec![json!({"origin_vertex": 0, "destination_vertex": 4})], fields: vec!["origin_vertex", "destination_vertex"] });
+    out.push(AppDef {
+        name: "yens_k1",
+        spec: s,
+        bases: vec![json!({"origin_vertex": 0, "destination_vertex": 4})],
+        fields: vec!["origin_vertex", "destination_vertex"],
+    });
     // A11 frontier models reading the query
     let mut s = AppSpec::simple(net.clone());
     s.road_classes = Some((0..net.m()).map(|e| (e == 5) as u8).collect());
@@ -203,7 +326,17 @@ pub fn apps() -> Vec<AppDef> {
 }
 
 fn deviation_values_basic() -> Vec<Value> {
-    vec![json!(null), json!(true), json!(-1), json!(1.5), json!(9223372036854775808u64), json!("x"), json!([]), json!({}), json!([[]])]
+    vec![
+        json!(null),
+        json!(true),
+        json!(-1),
+        json!(1.5),
+        json!(9223372036854775808u64),
+        json!("x"),
+        json!([]),
+        json!({}),
+        json!([[]]),
+    ]
 }
 
 /// long strings: ASCII, and 3- and 4-byte characters behind 0..3 ASCII characters, so that any fixed byte offset into
@@ -290,45 +423,143 @@ fn special_queries(def: &AppDef) -> Vec<(String, Value, bool)> {
     let m = base_net().m();
     let mut v: Vec<(String, Value, bool)> = vec![];
     // top-level values that are not objects
-    for (i, x) in [json!(null), json!(true), json!(7), json!(1.5), json!("x"), json!([]), json!([[]]), json!([{"origin_vertex": 0, "destination_vertex": 4}]), json!([1, 2])].into_iter().enumerate() {
+    for (i, x) in [
+        json!(null),
+        json!(true),
+        json!(7),
+        json!(1.5),
+        json!("x"),
+        json!([]),
+        json!([[]]),
+        json!([{"origin_vertex": 0, "destination_vertex": 4}]),
+        json!([1, 2]),
+    ]
+    .into_iter()
+    .enumerate()
+    {
         v.push((format!("non_object_query_{}", i), x, true));
     }
     v.push(("empty_object".into(), json!({}), true));
-    if def.name.starts_with("plain_vertex") || def.name == "ksp_single_via" || def.name == "yens_k1" {
-        v.push(("origin_one_past_end".into(), json!({"origin_vertex": n, "destination_vertex": 4}), true));
-        v.push(("destination_one_past_end".into(), json!({"origin_vertex": 0, "destination_vertex": n}), true));
-        v.push(("origin_equals_destination".into(), json!({"origin_vertex": 3, "destination_vertex": 3}), true));
+    if def.name.starts_with("plain_vertex") || def.name == "ksp_single_via" || def.name == "yens_k1"
+    {
+        v.push((
+            "origin_one_past_end".into(),
+            json!({"origin_vertex": n, "destination_vertex": 4}),
+            true,
+        ));
+        v.push((
+            "destination_one_past_end".into(),
+            json!({"origin_vertex": 0, "destination_vertex": n}),
+            true,
+        ));
+        v.push((
+            "origin_equals_destination".into(),
+            json!({"origin_vertex": 3, "destination_vertex": 3}),
+            true,
+        ));
         // identical ids at both ends of the id range and beyond it (the search answers origin = destination before it looks
         // either of them up)
         for (i, x) in [0usize, n - 1, n, n + 1, 1000].into_iter().enumerate() {
-            v.push((format!("origin_equals_destination_at_{}", ["first", "last", "one_past_end", "two_past_end", "far_past_end"][i]), json!({"origin_vertex": x, "destination_vertex": x}), true));
+            v.push((
+                format!(
+                    "origin_equals_destination_at_{}",
+                    [
+                        "first",
+                        "last",
+                        "one_past_end",
+                        "two_past_end",
+                        "far_past_end"
+                    ][i]
+                ),
+                json!({"origin_vertex": x, "destination_vertex": x}),
+                true,
+            ));
         }
-        v.push(("destination_unreachable".into(), json!({"origin_vertex": 4, "destination_vertex": 0}), true));
-        v.push(("zero_weights".into(), json!({"origin_vertex": 0, "destination_vertex": 4, "weights": {"distance": 0.0}}), true));
-        v.push(("unknown_weight_name".into(), json!({"origin_vertex": 0, "destination_vertex": 4, "weights": {"bogus": 1.0}}), false));
-        v.push(("one_edge_route".into(), json!({"origin_vertex": 3, "destination_vertex": 4, "k": 2}), false));
+        v.push((
+            "destination_unreachable".into(),
+            json!({"origin_vertex": 4, "destination_vertex": 0}),
+            true,
+        ));
+        v.push((
+            "zero_weights".into(),
+            json!({"origin_vertex": 0, "destination_vertex": 4, "weights": {"distance": 0.0}}),
+            true,
+        ));
+        v.push((
+            "unknown_weight_name".into(),
+            json!({"origin_vertex": 0, "destination_vertex": 4, "weights": {"bogus": 1.0}}),
+            false,
+        ));
+        v.push((
+            "one_edge_route".into(),
+            json!({"origin_vertex": 3, "destination_vertex": 4, "k": 2}),
+            false,
+        ));
         // long multi-byte keys where the code looks names up (and quotes them when they are unknown)
         for (i, k) in long_strings().into_iter().enumerate() {
-            v.push((format!("long_weight_name_{}", i), json!({"origin_vertex": 0, "destination_vertex": 4, "weights": {k.clone(): 1.0}}), false));
+            v.push((
+                format!("long_weight_name_{}", i),
+                json!({"origin_vertex": 0, "destination_vertex": 4, "weights": {k.clone(): 1.0}}),
+                false,
+            ));
             v.push((format!("long_rate_name_{}", i), json!({"origin_vertex": 0, "destination_vertex": 4, "vehicle_rates": {k.clone(): {"type": "raw"}}}), false));
             v.push((format!("long_state_feature_name_{}", i), json!({"origin_vertex": 0, "destination_vertex": 4, "state_features": {k: {"distance_unit": "miles", "initial": 0.0}}}), false));
         }
     }
     if def.name == "limits_with_zero_frequency" {
-        v.push(("search_longer_than_the_limit".into(), json!({"origin_vertex": 5, "destination_vertex": 4}), true));
+        v.push((
+            "search_longer_than_the_limit".into(),
+            json!({"origin_vertex": 5, "destination_vertex": 4}),
+            true,
+        ));
     }
     if def.name.starts_with("plain_edge") {
         for (i, e) in [0usize, 1, m - 1, m, 1000].into_iter().enumerate() {
             // identical edges inside the network are a query that can be answered with nothing in it (see the known finding on
             // identical vertices); whatever comes back, the call returns and echoes the request
-            v.push((format!("origin_edge_equals_destination_edge_at_{}", ["first", "second", "last", "one_past_end", "far_past_end"][i]), json!({"origin_edge": e, "destination_edge": e}), e >= m));
+            v.push((
+                format!(
+                    "origin_edge_equals_destination_edge_at_{}",
+                    ["first", "second", "last", "one_past_end", "far_past_end"][i]
+                ),
+                json!({"origin_edge": e, "destination_edge": e}),
+                e >= m,
+            ));
         }
-        v.push(("origin_edge_one_past_end".into(), json!({"origin_edge": m, "destination_edge": 0}), true));
-        v.push(("destination_edge_one_past_end".into(), json!({"origin_edge": 0, "destination_edge": m}), true));
-        v.push(("adjacent_edges".into(), json!({"origin_edge": 0, "destination_edge": 1}), false));
+        v.push((
+            "origin_edge_one_past_end".into(),
+            json!({"origin_edge": m, "destination_edge": 0}),
+            true,
+        ));
+        v.push((
+            "destination_edge_one_past_end".into(),
+            json!({"origin_edge": 0, "destination_edge": m}),
+            true,
+        ));
+        v.push((
+            "adjacent_edges".into(),
+            json!({"origin_edge": 0, "destination_edge": 1}),
+            false,
+        ));
     }
-    if def.name == "vertex_rtree" || def.name == "edge_rtree" || def.name == "load_balancer_haversine" {
-        for (i, (x, y)) in [(181.0, 0.0), (0.0, 91.0), (-181.0, -91.0), (1e30, 0.0), (0.0, 50.0), (0.0, 1e39), (1e39, 0.0), (-1e300, 1e300), (f64::MAX, f64::MIN_POSITIVE)].iter().enumerate() {
+    if def.name == "vertex_rtree"
+        || def.name == "edge_rtree"
+        || def.name == "load_balancer_haversine"
+    {
+        for (i, (x, y)) in [
+            (181.0, 0.0),
+            (0.0, 91.0),
+            (-181.0, -91.0),
+            (1e30, 0.0),
+            (0.0, 50.0),
+            (0.0, 1e39),
+            (1e39, 0.0),
+            (-1e300, 1e300),
+            (f64::MAX, f64::MIN_POSITIVE),
+        ]
+        .iter()
+        .enumerate()
+        {
             let mut q = def.bases[0].clone();
             q["origin_x"] = json!(x);
             q["origin_y"] = json!(y);
@@ -337,12 +568,31 @@ fn special_queries(def: &AppDef) -> Vec<(String, Value, bool)> {
         }
     }
     if def.name == "grid_search" {
-        for (i, g) in [json!({}), json!({"a": []}), json!({"a": [[]]}), json!({"a": [1], "b": []}), json!({"a": {"grid_search": {"b": [1]}}}), json!({"a": 5}), json!({"a": [1, 2], "b": "x"})].into_iter().enumerate() {
-            v.push((format!("degenerate_grid_{}", i), json!({"origin_vertex": 0, "destination_vertex": 4, "grid_search": g}), false));
+        for (i, g) in [
+            json!({}),
+            json!({"a": []}),
+            json!({"a": [[]]}),
+            json!({"a": [1], "b": []}),
+            json!({"a": {"grid_search": {"b": [1]}}}),
+            json!({"a": 5}),
+            json!({"a": [1, 2], "b": "x"}),
+        ]
+        .into_iter()
+        .enumerate()
+        {
+            v.push((
+                format!("degenerate_grid_{}", i),
+                json!({"origin_vertex": 0, "destination_vertex": 4, "grid_search": g}),
+                false,
+            ));
         }
     }
     if def.name == "energy_bev" {
-        v.push(("unknown_vehicle".into(), json!({"origin_vertex": 0, "destination_vertex": 4, "model_name": "nope"}), true));
+        v.push((
+            "unknown_vehicle".into(),
+            json!({"origin_vertex": 0, "destination_vertex": 4, "model_name": "nope"}),
+            true,
+        ));
         v.push(("soc_out_of_range".into(), json!({"origin_vertex": 0, "destination_vertex": 4, "model_name": "bolt", "starting_soc_percent": 100.5}), true));
         v.push(("soc_negative".into(), json!({"origin_vertex": 0, "destination_vertex": 4, "model_name": "bolt", "starting_soc_percent": -1}), true));
     }
@@ -352,8 +602,24 @@ fn special_queries(def: &AppDef) -> Vec<(String, Value, bool)> {
 /// fields without which (or with an ill-typed value of which) the query cannot be answered
 fn required_field(def: &AppDef, field: &str) -> bool {
     match def.name {
-        "plain_vertex" | "plain_vertex_wkt" | "plain_vertex_wkb" | "plain_vertex_geo_json" | "plain_vertex_json" | "plain_vertex_uuid_first" | "plain_vertex_uuid_tree_only" | "limits_with_zero_frequency" | "speed_vertex" | "grid_search" | "inject_overwrite" | "inject_no_overwrite" | "ksp_single_via" | "yens_k1" | "energy_bev" => field == "origin_vertex",
-        "vertex_rtree" | "edge_rtree" | "load_balancer_haversine" => field == "origin_x" || field == "origin_y",
+        "plain_vertex"
+        | "plain_vertex_wkt"
+        | "plain_vertex_wkb"
+        | "plain_vertex_geo_json"
+        | "plain_vertex_json"
+        | "plain_vertex_uuid_first"
+        | "plain_vertex_uuid_tree_only"
+        | "limits_with_zero_frequency"
+        | "speed_vertex"
+        | "grid_search"
+        | "inject_overwrite"
+        | "inject_no_overwrite"
+        | "ksp_single_via"
+        | "yens_k1"
+        | "energy_bev" => field == "origin_vertex",
+        "vertex_rtree" | "edge_rtree" | "load_balancer_haversine" => {
+            field == "origin_x" || field == "origin_y"
+        }
         "plain_edge" | "plain_edge_tree_only" => field == "origin_edge",
         _ => false,
     }
@@ -364,11 +630,41 @@ pub fn cases(tier: Tier) -> Vec<Case> {
     for (ai, def) in apps().iter().enumerate() {
         let valid = tagq(&def.bases[0], "valid");
         // the empty batch and the valid queries themselves
-        out.push(Case { app: ai, app_name: def.name, batch: vec![], deviant: None, what: "empty_batch".into(), deviations: 9, must_fail: false });
+        out.push(Case {
+            app: ai,
+            app_name: def.name,
+            batch: vec![],
+            deviant: None,
+            what: "empty_batch".into(),
+            deviations: 9,
+            must_fail: false,
+        });
         for b in def.bases.iter() {
-            out.push(Case { app: ai, app_name: def.name, batch: vec![tagq(b, "valid")], deviant: None, what: "valid_query".into(), deviations: 0, must_fail: false });
+            out.push(Case {
+                app: ai,
+                app_name: def.name,
+                batch: vec![tagq(b, "valid")],
+                deviant: None,
+                what: "valid_query".into(),
+                deviations: 0,
+                must_fail: false,
+            });
         }
-        out.push(Case { app: ai, app_name: def.name, batch: def.bases.iter().chain(def.bases.iter()).enumerate().map(|(i, b)| tagq(b, &format!("valid{}", i))).collect(), deviant: None, what: "valid_batch".into(), deviations: 0, must_fail: false });
+        out.push(Case {
+            app: ai,
+            app_name: def.name,
+            batch: def
+                .bases
+                .iter()
+                .chain(def.bases.iter())
+                .enumerate()
+                .map(|(i, b)| tagq(b, &format!("valid{}", i)))
+                .collect(),
+            deviant: None,
+            what: "valid_batch".into(),
+            deviations: 0,
+            must_fail: false,
+        });
         let mut deviants: Vec<(String, Value, u8, bool)> = vec![];
         for (name, q, must_fail) in special_queries(def) {
             deviants.push((name, q, 9, must_fail));
@@ -392,7 +688,8 @@ pub fn cases(tier: Tier) -> Vec<Case> {
         for (name, q, f) in singles.iter() {
             // a required field that is removed, ill-typed or out of range cannot be answered;
             // for coordinates -1 and 1.5 are perfectly good values
-            let numeric_ok = (f.ends_with("_x") || f.ends_with("_y")) && (name.ends_with("value2") || name.ends_with("value3"));
+            let numeric_ok = (f.ends_with("_x") || f.ends_with("_y"))
+                && (name.ends_with("value2") || name.ends_with("value3"));
             let must_fail = required_field(def, f) && !numeric_ok;
             deviants.push((name.clone(), q.clone(), 1, must_fail));
         }
@@ -419,11 +716,35 @@ pub fn cases(tier: Tier) -> Vec<Case> {
         for (name, q, devs, must_fail) in deviants {
             let q = tagq(&q, "deviant");
             // alone, then before and after a valid query (pairs only alone and after)
-            out.push(Case { app: ai, app_name: def.name, batch: vec![q.clone()], deviant: Some(0), what: format!("{}@alone", name), deviations: devs, must_fail });
+            out.push(Case {
+                app: ai,
+                app_name: def.name,
+                batch: vec![q.clone()],
+                deviant: Some(0),
+                what: format!("{}@alone", name),
+                deviations: devs,
+                must_fail,
+            });
             if devs != 2 {
-                out.push(Case { app: ai, app_name: def.name, batch: vec![q.clone(), valid.clone()], deviant: Some(0), what: format!("{}@before_valid", name), deviations: devs, must_fail });
+                out.push(Case {
+                    app: ai,
+                    app_name: def.name,
+                    batch: vec![q.clone(), valid.clone()],
+                    deviant: Some(0),
+                    what: format!("{}@before_valid", name),
+                    deviations: devs,
+                    must_fail,
+                });
             }
-            out.push(Case { app: ai, app_name: def.name, batch: vec![valid.clone(), q.clone()], deviant: Some(1), what: format!("{}@after_valid", name), deviations: devs, must_fail });
+            out.push(Case {
+                app: ai,
+                app_name: def.name,
+                batch: vec![valid.clone(), q.clone()],
+                deviant: Some(1),
+                what: format!("{}@after_valid", name),
+                deviations: devs,
+                must_fail,
+            });
         }
     }
     out
@@ -434,7 +755,14 @@ fn strip(v: &Value) -> Value {
         Value::Object(m) => {
             let mut o = serde_json::Map::new();
             for (k, x) in m.iter() {
-                if ["search_executed_time", "search_runtime", "output_plugin_executed_time", "search_result_size_mib"].contains(&k.as_str()) {
+                if [
+                    "search_executed_time",
+                    "search_runtime",
+                    "output_plugin_executed_time",
+                    "search_result_size_mib",
+                ]
+                .contains(&k.as_str())
+                {
                     continue;
                 }
                 o.insert(k.clone(), strip(x));
@@ -450,7 +778,9 @@ fn strip(v: &Value) -> Value {
 /// grid search removes its own section); other values: equal
 pub fn echoes(request: &Value, query: &Value, written: &[&str]) -> bool {
     match (request, query) {
-        (Value::Object(r), Value::Object(q)) => q.iter().all(|(k, v)| k == "grid_search" || written.contains(&k.as_str()) || r.get(k) == Some(v)),
+        (Value::Object(r), Value::Object(q)) => q.iter().all(|(k, v)| {
+            k == "grid_search" || written.contains(&k.as_str()) || r.get(k) == Some(v)
+        }),
         (r, q) => r == q,
     }
 }
@@ -472,7 +802,8 @@ fn site(c: &Case) -> String {
     let w = c.what.split('@').next().unwrap_or("");
     let kind = if w.starts_with("non_object_query") {
         "non_object_query".to_string()
-    } else if w == "origin_equals_destination_at_first" || w == "origin_equals_destination_at_last" {
+    } else if w == "origin_equals_destination_at_first" || w == "origin_equals_destination_at_last"
+    {
         // identical ids inside the network: one situation wherever in the id range they lie
         "origin_equals_destination".to_string()
     } else if w.starts_with("degenerate_grid") || w.starts_with("coordinates_out_of_range") {
@@ -505,7 +836,10 @@ pub fn check_case(app: &CompassApp, alone_valid: &Value, c: &Case, st: &mut Stat
         st.nontrivial += 1;
     }
     let comp = site(c);
-    let size = (c.deviations as u64) * 100_000 + serde_json::to_string(&c.batch).map(|s| s.len()).unwrap_or(0) as u64;
+    let size = (c.deviations as u64) * 100_000
+        + serde_json::to_string(&c.batch)
+            .map(|s| s.len())
+            .unwrap_or(0) as u64;
     let case = || json!({"app": c.app_name, "what": c.what, "batch": c.batch});
     let r = guarded(|| app.run(c.batch.clone(), None).map_err(|e| e.to_string()));
     let responses = match r {
@@ -514,7 +848,13 @@ pub fn check_case(app: &CompassApp, alone_valid: &Value, c: &Case, st: &mut Stat
             return;
         }
         Ok(Err(e)) => {
-            st.violation(&comp, "call_returns_responses_not_an_error", size, || e.clone(), case);
+            st.violation(
+                &comp,
+                "call_returns_responses_not_an_error",
+                size,
+                || e.clone(),
+                case,
+            );
             return;
         }
         Ok(Ok(r)) => r,
@@ -525,7 +865,19 @@ pub fn check_case(app: &CompassApp, alone_valid: &Value, c: &Case, st: &mut Stat
         if !responses.is_empty() && responses.iter().all(|r| r.get("error").is_none()) {
             st.pass("base_query_is_answered");
         } else {
-            st.violation("harness", "base_query_not_answered", 0, || format!("{}: {:?}", c.app_name, responses.iter().map(strip).collect::<Vec<_>>()), case);
+            st.violation(
+                "harness",
+                "base_query_not_answered",
+                0,
+                || {
+                    format!(
+                        "{}: {:?}",
+                        c.app_name,
+                        responses.iter().map(strip).collect::<Vec<_>>()
+                    )
+                },
+                case,
+            );
         }
     }
     // count: one response per query (grid queries expand; their count is checked by C17)
@@ -534,10 +886,22 @@ pub fn check_case(app: &CompassApp, alone_valid: &Value, c: &Case, st: &mut Stat
         if responses.len() == c.batch.len() {
             st.pass("one_response_per_query");
         } else {
-            st.violation(&comp, "one_response_per_query", size, || format!("{} queries, {} responses", c.batch.len(), responses.len()), case);
+            st.violation(
+                &comp,
+                "one_response_per_query",
+                size,
+                || format!("{} queries, {} responses", c.batch.len(), responses.len()),
+                case,
+            );
         }
     } else if responses.is_empty() && !c.batch.is_empty() {
-        st.violation(&comp, "one_response_per_query", size, || format!("{} queries, no response at all", c.batch.len()), case);
+        st.violation(
+            &comp,
+            "one_response_per_query",
+            size,
+            || format!("{} queries, no response at all", c.batch.len()),
+            case,
+        );
     }
     // pair responses with queries through the identifying field (objects) or by equality (other values)
     let written = written_keys(c.app_name);
@@ -566,19 +930,56 @@ pub fn check_case(app: &CompassApp, alone_valid: &Value, c: &Case, st: &mut Stat
     for (qi, q) in c.batch.iter().enumerate() {
         let matching: Vec<&Value> = assigned[qi].iter().map(|ri| &responses[*ri]).collect();
         if matching.is_empty() {
-            st.violation(&comp, "response_echoes_the_request", size, || format!("no response carries query #{} {}; requests seen: {:?}", qi, q, responses.iter().map(|r| r.get("request").cloned().unwrap_or(Value::Null).to_string()).collect::<Vec<_>>()), case);
+            st.violation(
+                &comp,
+                "response_echoes_the_request",
+                size,
+                || {
+                    format!(
+                        "no response carries query #{} {}; requests seen: {:?}",
+                        qi,
+                        q,
+                        responses
+                            .iter()
+                            .map(|r| r.get("request").cloned().unwrap_or(Value::Null).to_string())
+                            .collect::<Vec<_>>()
+                    )
+                },
+                case,
+            );
             continue;
         }
-        if matching.iter().all(|r| echoes(r.get("request").unwrap_or(&Value::Null), q, &written)) {
+        if matching
+            .iter()
+            .all(|r| echoes(r.get("request").unwrap_or(&Value::Null), q, &written))
+        {
             st.pass("response_echoes_the_request");
         } else {
-            st.violation(&comp, "response_echoes_the_request", size, || format!("query {} answered with request {}", q, matching[0].get("request").cloned().unwrap_or(Value::Null)), case);
+            st.violation(
+                &comp,
+                "response_echoes_the_request",
+                size,
+                || {
+                    format!(
+                        "query {} answered with request {}",
+                        q,
+                        matching[0].get("request").cloned().unwrap_or(Value::Null)
+                    )
+                },
+                case,
+            );
         }
         if Some(qi) == c.deviant && c.must_fail {
             if matching.iter().all(|r| r.get("error").is_some()) {
                 st.pass("unanswerable_query_gets_error_response");
             } else {
-                st.violation(&comp, "unanswerable_query_gets_error_response", size, || format!("response without error: {}", strip(matching[0])), case);
+                st.violation(
+                    &comp,
+                    "unanswerable_query_gets_error_response",
+                    size,
+                    || format!("response without error: {}", strip(matching[0])),
+                    case,
+                );
             }
         }
         if Some(qi) != c.deviant && c.deviant.is_some() {
@@ -586,20 +987,46 @@ pub fn check_case(app: &CompassApp, alone_valid: &Value, c: &Case, st: &mut Stat
             if matching.iter().any(|r| project(r) == *alone_valid) {
                 st.pass("valid_neighbour_unchanged");
             } else {
-                st.violation(&comp, "valid_neighbour_unchanged", size, || format!("valid query answered with {} but alone it gives {}", project(matching[0]), alone_valid), case);
+                st.violation(
+                    &comp,
+                    "valid_neighbour_unchanged",
+                    size,
+                    || {
+                        format!(
+                            "valid query answered with {} but alone it gives {}",
+                            project(matching[0]),
+                            alone_valid
+                        )
+                    },
+                    case,
+                );
             }
         }
     }
     for r in responses.iter() {
-        let ok = r.get("request").is_some() && (r.get("error").is_some() || r.get("route").is_some() || r.get("tree").is_some() || r.get("route_edges").is_some());
+        let ok = r.get("request").is_some()
+            && (r.get("error").is_some()
+                || r.get("route").is_some()
+                || r.get("tree").is_some()
+                || r.get("route_edges").is_some());
         if !ok {
-            st.violation(&comp, "response_is_result_or_error", size, || format!("{}", strip(r)), case);
+            st.violation(
+                &comp,
+                "response_is_result_or_error",
+                size,
+                || format!("{}", strip(r)),
+                case,
+            );
         }
     }
 }
 
 pub fn worker(args: &[String]) -> i32 {
-    let tier = if args.first().map(|s| s.as_str()) == Some("thorough") { Tier::Thorough } else { Tier::Quick };
+    let tier = if args.first().map(|s| s.as_str()) == Some("thorough") {
+        Tier::Thorough
+    } else {
+        Tier::Quick
+    };
     let all = cases(tier);
     let defs = apps();
     let scratch = Scratch::new("c12");
@@ -607,7 +1034,11 @@ pub fn worker(args: &[String]) -> i32 {
     for (i, d) in defs.iter().enumerate() {
         match d.spec.build(&scratch.path.join(format!("app{}", i))) {
             Ok(app) => {
-                let alone = guarded(|| app.run(vec![tagq(&d.bases[0], "valid")], None)).ok().and_then(|r| r.ok()).and_then(|v| v.first().map(project)).unwrap_or(Value::Null);
+                let alone = guarded(|| app.run(vec![tagq(&d.bases[0], "valid")], None))
+                    .ok()
+                    .and_then(|r| r.ok())
+                    .and_then(|v| v.first().map(project))
+                    .unwrap_or(Value::Null);
                 built.push(Some((app, alone)));
             }
             Err(e) => {
@@ -622,10 +1053,19 @@ pub fn worker(args: &[String]) -> i32 {
             Some((app, alone)) => {
                 check_case(app, alone, c, st);
                 if i % 997 == 3 {
-                    st.sample(4, || json!({"app": c.app_name, "what": c.what, "batch": c.batch}));
+                    st.sample(
+                        4,
+                        || json!({"app": c.app_name, "what": c.what, "batch": c.batch}),
+                    );
                 }
             }
-            None => st.violation("harness", "app_build", 0, || format!("app {} could not be built", c.app_name), || json!({})),
+            None => st.violation(
+                "harness",
+                "app_build",
+                0,
+                || format!("app {} could not be built", c.app_name),
+                || json!({}),
+            ),
         }
     })
 }
@@ -651,7 +1091,10 @@ pub fn run(tier: Tier) -> i32 {
     for (i, f) in fates {
         let c = &all[i as usize];
         let comp = site(c);
-        let size = (c.deviations as u64) * 100_000 + serde_json::to_string(&c.batch).map(|s| s.len()).unwrap_or(0) as u64;
+        let size = (c.deviations as u64) * 100_000
+            + serde_json::to_string(&c.batch)
+                .map(|s| s.len())
+                .unwrap_or(0) as u64;
         st.evaluations += 1;
         st.transitions += 1;
         st.states += 1;
@@ -677,55 +1120,89 @@ pub fn run(tier: Tier) -> i32 {
     )
 }
 
-
 /// an application configured with `parallelism = 0` (the loader accepts it) whose runs state their own parallelism: the
 /// per-run value decides the worker bins, so every batch is served; without a per-run value the call may refuse to run, but
 /// no batch may take the process down
 fn zero_parallelism(st: &mut Stats) {
     let scratch = Scratch::new("c12z");
-    let mut spec = AppSpec::simple(base_net());
-    spec.parallelism = 0;
-    let app = match spec.build(&scratch.path.join("app")) {
-        Ok(a) => a,
-        Err(e) => {
-            // a loader that refuses the value leaves nothing to run
-            st.outcome(&format!("parallelism_zero_refused_by_loader: {}", e.chars().take(60).collect::<String>()));
-            return;
-        }
-    };
-    let valid = json!({"origin_vertex": 0, "destination_vertex": 4});
-    let bad = json!({"origin_vertex": "x", "destination_vertex": 4});
-    let batches: Vec<(&str, Vec<Value>)> = vec![
-        ("empty_batch", vec![]),
-        ("valid_query", vec![valid.clone()]),
-        ("failing_query", vec![bad.clone()]),
-        ("not_an_object", vec![json!(5)]),
-        ("mixed_batch", vec![bad.clone(), valid.clone(), json!([1]), valid.clone()]),
-    ];
-    for (name, batch) in batches.iter() {
-        for run_par in [None, Some(1u64), Some(2), Some(3)] {
-            st.evaluations += 1;
-            st.transitions += 1;
-            st.traces += 1;
-            st.states += 1;
-            st.nontrivial += 1;
-            let cfg = run_par.map(|p| json!({"parallelism": p}));
-            let comp = format!("application_parallelism_zero.{}", if run_par.is_some() { "run_states_parallelism" } else { "run_states_nothing" });
-            let case = || json!({"app": "simple", "configured_parallelism": 0, "run_configuration": cfg, "what": name, "batch": batch});
-            match guarded(|| app.run(batch.clone(), cfg.as_ref()).map_err(|e| e.to_string())) {
-                Err(p) => st.violation(&comp, "no_panic", batch.len() as u64, || p.clone(), case),
-                Ok(Err(e)) => {
-                    if run_par.is_some() {
-                        st.violation(&comp, "call_returns_responses_not_an_error", batch.len() as u64, || e.clone(), case);
-                    } else {
-                        st.outcome("parallelism_zero_run_refused");
+    for configured in [0usize, 2] {
+        let mut spec = AppSpec::simple(base_net());
+        spec.parallelism = configured;
+        let app = match spec.build(&scratch.path.join(format!("app{}", configured))) {
+            Ok(a) => a,
+            Err(e) => {
+                // a loader that refuses the value leaves nothing to run
+                st.outcome(&format!(
+                    "parallelism_zero_refused_by_loader: {}",
+                    e.chars().take(60).collect::<String>()
+                ));
+                continue;
+            }
+        };
+        let valid = json!({"origin_vertex": 0, "destination_vertex": 4});
+        let bad = json!({"origin_vertex": "x", "destination_vertex": 4});
+        let batches: Vec<(&str, Vec<Value>)> = vec![
+            ("empty_batch", vec![]),
+            ("valid_query", vec![valid.clone()]),
+            ("failing_query", vec![bad.clone()]),
+            ("not_an_object", vec![json!(5)]),
+            (
+                "mixed_batch",
+                vec![bad.clone(), valid.clone(), json!([1]), valid.clone()],
+            ),
+        ];
+        for (name, batch) in batches.iter() {
+            for run_par in [None, Some(0u64), Some(1), Some(2), Some(3)] {
+                // which parallelism is in force: the run's, else the configured one; zero workers may refuse to run
+                let in_force = run_par.unwrap_or(configured as u64);
+                st.evaluations += 1;
+                st.transitions += 1;
+                st.traces += 1;
+                st.states += 1;
+                st.nontrivial += 1;
+                let cfg = run_par.map(|p| json!({"parallelism": p}));
+                let comp = format!(
+                    "application_parallelism_{}.{}",
+                    if configured == 0 { "zero" } else { "two" },
+                    match run_par {
+                        Some(0) => "run_states_zero",
+                        Some(_) => "run_states_parallelism",
+                        None => "run_states_nothing",
                     }
-                }
-                Ok(Ok(r)) => {
-                    if r.len() == batch.len() {
-                        st.pass("one_response_per_query");
-                    } else {
-                        st.violation(&comp, "one_response_per_query", batch.len() as u64, || format!("{} queries, {} responses", batch.len(), r.len()), case);
+                );
+                let case = || json!({"app": "simple", "configured_parallelism": 0, "configured": configured, "run_configuration": cfg, "what": name, "batch": batch});
+                match guarded(|| {
+                    app.run(batch.clone(), cfg.as_ref())
+                        .map_err(|e| e.to_string())
+                }) {
+                    Err(p) => {
+                        st.violation(&comp, "no_panic", batch.len() as u64, || p.clone(), case)
+                    }
+                    Ok(Err(e)) => {
+                        if in_force >= 1 {
+                            st.violation(
+                                &comp,
+                                "call_returns_responses_not_an_error",
+                                batch.len() as u64,
+                                || e.clone(),
+                                case,
+                            );
+                        } else {
+                            st.outcome("parallelism_zero_run_refused");
+                        }
+                    }
+                    Ok(Ok(r)) => {
+                        if r.len() == batch.len() {
+                            st.pass("one_response_per_query");
+                        } else {
+                            st.violation(
+                                &comp,
+                                "one_response_per_query",
+                                batch.len() as u64,
+                                || format!("{} queries, {} responses", batch.len(), r.len()),
+                                case,
+                            );
+                        }
                     }
                 }
             }
@@ -741,15 +1218,38 @@ fn output_policy_values(st: &mut Stats) {
     let app = match spec.build(&scratch.path.join("app")) {
         Ok(a) => a,
         Err(e) => {
-            st.violation("harness", "app_build", 0, || e.clone(), || json!({"output_policy_values": true}));
+            st.violation(
+                "harness",
+                "app_build",
+                0,
+                || e.clone(),
+                || json!({"output_policy_values": true}),
+            );
             return;
         }
     };
     let valid = json!({"origin_vertex": 0, "destination_vertex": 4});
     let bad = json!({"origin_vertex": "x", "destination_vertex": 4});
-    let batches: Vec<(&str, Vec<Value>)> = vec![("valid_query", vec![valid.clone()]), ("failing_query", vec![bad.clone()]), ("mixed_batch", vec![bad, valid.clone(), valid]), ("empty_batch", vec![])];
-    let rates: Vec<Value> = vec![json!(0), json!(-1), json!(1), json!(3), json!(i64::MAX), json!(0.5), json!("2"), Value::Null];
-    let formats = [json!({"type": "json", "newline_delimited": true}), json!({"type": "csv", "sorted": false, "mapping": {"o": "request.origin_vertex"}})];
+    let batches: Vec<(&str, Vec<Value>)> = vec![
+        ("valid_query", vec![valid.clone()]),
+        ("failing_query", vec![bad.clone()]),
+        ("mixed_batch", vec![bad, valid.clone(), valid]),
+        ("empty_batch", vec![]),
+    ];
+    let rates: Vec<Value> = vec![
+        json!(0),
+        json!(-1),
+        json!(1),
+        json!(3),
+        json!(i64::MAX),
+        json!(0.5),
+        json!("2"),
+        Value::Null,
+    ];
+    let formats = [
+        json!({"type": "json", "newline_delimited": true}),
+        json!({"type": "csv", "sorted": false, "mapping": {"o": "request.origin_vertex"}}),
+    ];
     for (ri, rate) in rates.iter().enumerate() {
         for (fi, format) in formats.iter().enumerate() {
             for (name, batch) in batches.iter() {
@@ -766,14 +1266,25 @@ fn output_policy_values(st: &mut Stats) {
                 let cfg = json!({"parallelism": 2, "response_output_policy": pol});
                 let comp = "output_policy.file_flush_rate".to_string();
                 let case = || json!({"app": "simple", "output_policy_values": true, "run_configuration": cfg, "what": name, "batch": batch});
-                match guarded(|| app.run(batch.clone(), Some(&cfg)).map_err(|e| e.to_string())) {
-                    Err(p) => st.violation(&comp, "no_panic", batch.len() as u64, || p.clone(), case),
+                match guarded(|| {
+                    app.run(batch.clone(), Some(&cfg))
+                        .map_err(|e| e.to_string())
+                }) {
+                    Err(p) => {
+                        st.violation(&comp, "no_panic", batch.len() as u64, || p.clone(), case)
+                    }
                     Ok(Err(_)) => st.outcome("output_policy_refused"),
                     Ok(Ok(r)) => {
                         if r.len() == batch.len() {
                             st.pass("one_response_per_query");
                         } else {
-                            st.violation(&comp, "one_response_per_query", batch.len() as u64, || format!("{} queries, {} responses", batch.len(), r.len()), case);
+                            st.violation(
+                                &comp,
+                                "one_response_per_query",
+                                batch.len() as u64,
+                                || format!("{} queries, {} responses", batch.len(), r.len()),
+                                case,
+                            );
                         }
                     }
                 }
@@ -783,7 +1294,11 @@ fn output_policy_values(st: &mut Stats) {
 }
 
 pub fn replay(case: &Value) -> i32 {
-    let case = if case.get("case").is_some() && case.get("app").is_none() { &case["case"] } else { case };
+    let case = if case.get("case").is_some() && case.get("app").is_none() {
+        &case["case"]
+    } else {
+        case
+    };
     if case.get("output_policy_values").is_some() {
         let mut st = Stats::new();
         output_policy_values(&mut st);
